@@ -84,10 +84,11 @@ Definition zq (z : Z) : Q := inject_Z z.
 Definition total_weight (g : graph) : Q :=
   zq (fold_right Z.add 0%Z (map (ldeg g) (nodes g))) / 2.
 
-(* edges_within = sum(adj[v].get(w, 0.0) for v in comm for w in comm if v < w) *)
-Definition edges_within (g : graph) (c : list nat) : Z :=
-  fold_right Z.add 0%Z
-    (map (fun v => Z.of_nat (length (filter (fun w => (v <? w)%nat && edge_b g v w) c))) c).
+(* edges_within = sum(adj[v].get(w, 0.0) for v in comm for w in comm) / 2.0
+   (repository commit e1593dd: every unordered pair is met twice; labels need not be orderable) *)
+Definition edges_within (g : graph) (c : list nat) : Q :=
+  zq (fold_right Z.add 0%Z
+        (map (fun v => Z.of_nat (length (filter (fun w => edge_b g v w) c))) c)) / 2.
 
 Definition comm_deg (g : graph) (c : list nat) : Z := fold_right Z.add 0%Z (map (ldeg g) c).
 
@@ -95,7 +96,7 @@ Definition modularity (g : graph) (res : Q) (comms : list (list nat)) : Q :=
   let m := total_weight g in
   fold_left (fun acc c =>
      let x := zq (comm_deg g c) / (2 * m) in
-     acc + (zq (edges_within g c) / m - res * (x * x))) comms 0.
+     acc + (edges_within g c / m - res * (x * x))) comms 0.
 
 Record lres := { l_comms : list (list nat); l_objective : Q; l_iterations : nat; l_evaluations : nat }.
 
